@@ -22,7 +22,8 @@ META = {
                    '(atoms free: a sound generalisation; coefficients below 2^-48 are charged to the tolerance by the rounding lemma, anything larger is exhibited by z3, '
                    'restricted to lines through the box first). Finiteness: every reciprocal formed is of a sqrt atom whose radicand is (sum of squares) + b^2 > 0, also on '
                    'the all-zero image. Replay: central differences of the real forward pass against real autograd.',
-    'bounds': {'quick': {'first order': 'near_sym_a 4x4, 6x6, 5x5 (odd, extended outside the Function), 4x6; near_sym_b 4x4; near_sym_b_bp 4x4 (rot); colour C=3 4x4; magbias 0.01 and 1',
+    'bounds': {'added_families': ['second order C=2 8x8; first order magbias=1e-8 (4x4) and C=17 (2x2)', 'undecided magnitude thresholds: witnesses by evaluation at input scales 1, 2^-20, 2^-30, 2^-40, then z3 with defining constraints'],
+               'quick': {'first order': 'near_sym_a 4x4, 6x6, 5x5 (odd, extended outside the Function), 4x6; near_sym_b 4x4; near_sym_b_bp 4x4 (rot); colour C=3 4x4; magbias 0.01 and 1',
                          'second order': 'near_sym_a/qshift_a 8x8 (j2), near_sym_b_bp/qshift_b_bp 8x8 (j2_rot)', 'SmoothMagFn': '2 atoms + symbolic-free b in {0.01, 1}'},
                'thorough': {'first order': 'all 5 families up to 8x8', 'second order': '+ colour, 8x16'}},
     'outside': 'magbias = 0 (gradient not claimed finite); sizes beyond the lists; float rounding',
